@@ -57,6 +57,10 @@ def roles(u, hs):
     mode = names_defined_by(u, lambda v: 'await_all_uploads' in src(v))
     r = dict(uploaded=up[0], sets=m, action=act, args=fields[0] if fields else 'args', mode=mode[0] if mode else 'await_all')
     r['norm'] = dict(list(m.items()) + [(up[0], 'uploaded'), (act, 'subtype'), (r['args'], 'args'), (r['mode'], 'await_all')])
+    # other containers the wait owns: locals of _await_descriptor_upload bound to an empty container and not one of the three sets
+    r['closure_state'] = tuple(nm for nm in names_defined_by(u, lambda v: (isinstance(v, ast.Call) and dotted(v.func) in ('set', 'dict', 'list', 'OrderedDict', 'collections.OrderedDict')
+                                                                            and not v.args) or (isinstance(v, (ast.List, ast.Set)) and not v.elts)
+                                                                 or (isinstance(v, ast.Dict) and not v.keys)) if nm not in m)
     ROLES[key] = r
     return r
 
@@ -84,6 +88,11 @@ def is_mut(a):
                 return 'add:' + role
             if d in (real + '.discard', real + '.remove', real + '.pop', real + '.clear', real + '.difference_update', real + '.update'):
                 return '%s:%s' % (d.rsplit('.', 1)[1], role)
+        # any other state the wait keeps between events (a closure variable of _await_descriptor_upload that hs_desc changes in
+        # place): it is part of the wait just like the three sets
+        if isinstance(a.func, ast.Attribute) and isinstance(a.func.value, ast.Name) and a.func.attr in ('add', 'append', 'update', 'discard', 'remove', 'pop', 'clear', 'setdefault', 'extend', 'insert') \
+                and a.func.value.id in r.get('closure_state', ()):
+            return '%s:%s' % (a.func.attr, a.func.value.id)
         if d == r['uploaded'] + '.callback':
             return 'uploaded.callback'
         if d == r['uploaded'] + '.errback':
@@ -137,6 +146,46 @@ def r15_1(run):
             run.ob('R15.1', hs, a, 'only events of this service change the wait [%s: %s]' % (sub, m), ok, slot='own-events:%s:%s' % (sub, m),
                    message='%s leg: %s is not guarded by hostname_matches(<event address>): an HS_DESC %s event of another '
                            'service sharing the directory changes/completes this service\'s wait' % (sub, m, sub))
+    # every own UPLOAD is an attempt, every own UPLOADED / FAILED is recorded: the three `add`s are guarded by the leg test and the
+    # ownership test only - a further condition (the mode, "no results yet") decides the outcome over a subset of the attempts
+    for n in g.real_nodes():
+        if n.kind != 'stmt':
+            continue
+        for a in node_asts(n):
+            m = is_mut(a)
+            if not m or not m.startswith('add:') or m.split(':', 1)[1] not in ('attempted_uploads', 'confirmed_uploads', 'failed_uploads'):
+                continue
+            extra = []
+            for t, lab in g.guarded_by(n, lambda t_: True):
+                ta = t.ast
+                if isinstance(ta, ast.Compare) and dotted(ta.left) == CUR['roles']['action']:
+                    continue
+                if (isinstance(ta, ast.Call) and dotted(ta.func) == 'hostname_matches') or (isinstance(ta, ast.Name) and 'hostname_matches' in src(ta)):
+                    continue
+                if isinstance(ta, ast.Compare) and len(ta.ops) == 1 and isinstance(ta.ops[0], (ast.In, ast.NotIn)) and dotted(ta.comparators[0]) in CUR['roles']['sets'] \
+                        and 'args[3]' in nsrc(ta.left):
+                    continue        # "is this a directory we attempted?" - the pinned tree's stand-in for the ownership test on UPLOADED
+                if isinstance(ta, ast.Name):
+                    d_ = single_def(local_defs(hs), ta.id)
+                    if d_ is not None and d_[0] == 'expr' and 'hostname_matches' in src(d_[1]):
+                        continue
+                extra.append(src(ta)[:50])
+            # (a disjunction dominates with none of its atoms: also ask whether, once the ownership / leg test is passed, the
+            # end of the handler can be reached around the add)
+            doms = [(t, lab) for t, lab in g.guarded_by(n, lambda t_: True)]
+            if doms and not extra:
+                inner = None
+                for t, lab in doms:
+                    if inner is None or g.edge_dominates(inner[0], inner[1], t):
+                        inner = (t, lab)
+                start = [s_ for l_, s_ in inner[0].succ if l_ == inner[1]]
+                r_ = g.reachable(start, avoid=lambda x, n=n: x is n, follow_exc=False)
+                if any(e in r_ for e in g.normal_exits()):
+                    tests_between = sorted(set(src(x.ast)[:40] for x in r_ if x.kind == 'test' and x.ast is not None and g.reachable([x], follow_exc=False) and n in g.reachable([x], follow_exc=False)))
+                    extra = tests_between or ['some further condition']
+            run.ob('R15.1', hs, a, 'an own %s event is always recorded' % m.split(':', 1)[1].split('_')[0], not extra, slot='recorded-always:%s' % m,
+                   message='%s happens only when %s: own events outside that condition are ignored, so the creation is decided over a subset of the attempted uploads '
+                           '(completes with one still unanswered / fails although one later succeeds)' % (m, ' and '.join(extra)))
     # hostname_matches compares against this service's address
     hm = [c for c in u.children if c.name == 'hostname_matches']
     if not hm:
